@@ -36,6 +36,7 @@ fn main() {
                 "inter" => e3::inter(&mut rec, &mut rng, thorough),
                 "overhead" => e3::overhead(&mut rec, &mut rng, thorough),
                 "configs" => e3::configs(&mut rec, &mut rng, thorough, outdir, seed),
+                "fastpath" => e3::fastpath(&mut rec, &mut rng, thorough),
                 "plan" => e3::plan(&mut rec, &mut rng, thorough),
                 "linear" => e3::linear(&mut rec, &mut rng, thorough),
                 "matrices" => e4::matrices(&mut rec, &mut rng, thorough),
